@@ -24,6 +24,7 @@ type Disagreement struct {
 	Case      interface{} `json:"case"`
 	WireLine  string      `json:"wire_case"`
 	Predicate string      `json:"predicate_failed,omitempty"`
+	Shrunk    interface{} `json:"minimised,omitempty"`
 }
 
 type Result struct {
